@@ -35,6 +35,20 @@ Theorem C12_refuted : ~ C12_statement.
 Proof. exact frames_refine_spec_refuted. Qed.
 Print Assumptions C12_refuted.
 
+(* repaired (fix 6756254): the panic of a deferred native function is an
+   ordinary panic, when the function returns and while another panic unwinds
+   (second tree: it aborts the first panic and is recovered); the former
+   witness of native-defer-panic-host-panic now agrees with Go *)
+Definition w_native_defer_unwinding : func :=
+  mkfunc [IDeferFn [IRecover false] []; IDeferNat (NPanic 1); IPanic 2] [(2, 5%N)].
+
+Theorem C12_native_defer_panic_repaired :
+  (vm_run 10 w_native_defer_panic = Some (OPanic [(1%N, false, None)], []) /\
+   go_run 10 w_native_defer_panic = Some (OPanic [(1%N, false, None)], [])) /\
+  (vm_run 40 w_native_defer_unwinding = Some (ONil, [ERecover (Some 1%N)]) /\
+   go_run 40 w_native_defer_unwinding = Some (ONil, [ERecover (Some 1%N)])).
+Proof. exact (conj native_defer_panic_repaired native_defer_panic_unwinding_repaired). Qed.
+
 (* repaired (fix 7a741c2): a panic recovered by a deferred call leaves the chain when that
    call returns, also when the function has other deferred calls; the former
    witness of recovered-panic-stays-in-chain now agrees with Go *)
